@@ -498,13 +498,25 @@ def c02(rep, tier):
     gga = M.cfg(ga)
     disp = [ev for ev in gga.calls() if (ev.e.get('callee') or '').startswith('dispatch')]
     fw = [ev for ev in gga.calls() if (ev.e.get('callee') or '') in ('GenState::verr', 'GenState::err')]
-    okg = bool(disp) and bool(fw)
+    # ... or the whole list is transformed in one call: std::transform(in.errors.begin(), in.errors.end(), std::back_inserter(errors), ..)
+    whole = []
+    for ev in gga.calls():
+        e_ = ev.e
+        if (e_.get('callee') or '') in ('std::transform', 'std::copy', 'std::ranges::transform', 'std::ranges::copy') and e_.get('obj') is None and len(e_.get('args', [])) >= 3:
+            a0, a1 = strip_copies(strip_casts(e_['args'][0])), strip_copies(strip_casts(e_['args'][1]))
+            if is_call(a0, '::begin') and is_call(a1, '::end') and field_chain(a0.get('obj'))[1][-1:] == ['errors'] and show(a0.get('obj')) == show(a1.get('obj')) and \
+                    any(x.get('k') == 'call' and (x.get('callee') or '') == 'std::back_inserter' and 'errors' in show(x) for x in walk_expr(e_['args'][2])):
+                whole.append(ev)
+    okg = bool(disp) and (bool(fw) or bool(whole))
     for ev in disp:
         okg = okg and any(label is False and 'parsed_correctly' in show(cond) and show(cond).startswith('!') or
                           (label is True and 'parsed_correctly' in show(cond) and not show(cond).startswith('!')) for cond, label, cn in gga.guards_of(ev))
     loops = [s for s in walk_stmts(ga['body']) if s['k'] == 'rangefor' and field_chain(s['range'])[1][-1:] == ['errors']]
-    okg = okg and len(loops) == 1 and any(is_call(x, 'GenState::verr') or is_call(x, 'GenState::err') for x in walk_all_exprs(loops[0]['body']))
-    if okg:
+    if whole and not loops:
+        okg = okg and len(whole) == 1
+    else:
+        okg = okg and len(loops) == 1 and any(is_call(x, 'GenState::verr') or is_call(x, 'GenState::err') for x in walk_all_exprs(loops[0]['body']))
+    if okg and loops:
         # every one of them: inside the loop the forwarding call is reached on every path (no continue / condition in front of it)
         fwl = [ev for ev in fw if any(x is ev.e for x in walk_all_exprs(loops[0]['body']))]
         lcond = [n for n in gga.nodes if n.kind == 'cond' and n.stmt is loops[0]]
@@ -861,7 +873,10 @@ def dangling_rule(rep, M, lib):
                     if v.get('is_ref') and m in ELEMENT_ACCESS and x is strip_casts(init):
                         src = (show(o), m)
                     elif is_ptr and m in ELEMENT_ACCESS + ('data',):
-                        src = (show(o), m)
+                        # a pointer INTO the sequence: &v[i], v.data() - but `T *p = v.back()` on a sequence of pointers copies an element
+                        addr = any(y.get('k') == 'un' and y.get('op') == '&' and any(z is x for z in walk_expr(y['e'])) for y in walk_expr(init))
+                        if m == 'data' or addr:
+                            src = (show(o), m)
                     elif is_it and m in POSITION_ACCESS:
                         src = (show(o), m)
                     if src:
@@ -928,6 +943,8 @@ def dangling_rule(rep, M, lib):
                 if not hits:
                     continue
                 m = hits[0]
+                if kind == 'rangefor' and not any(x is e for x in walk_all_exprs(st.get('body'))):
+                    continue        # the loop variable is bound when the loop is entered: what happened to the sequence before that does not concern it
                 if m == 'pop_back' and how not in ('back', 'end', 'rbegin', 'range'):
                     continue
                 if m in ('operator=', 'swap') and kind == 'rangefor':
@@ -1379,6 +1396,24 @@ def message_ok(lib, f, msg, depth=0):
         return all(message_ok(lib, g, c['args'][idx[0]], depth + 1) for g, c in cs)
     if m.get('k') == 'member' and m['name'] in ('msg', 'message'):
         return True      # forwarded from another (checked) record
+    if m.get('k') == 'ref' and m.get('dk') == 'var' and depth < 3:
+        # a local string that is built up: its initialiser or one of the pieces appended to it has literal text (text is only ever added)
+        pieces = []
+        shrinks = False
+        for st in walk_stmts(f['body']):
+            if st['k'] == 'decl':
+                pieces += [v['init'] for v in st['vars'] if v.get('d') == m.get('d') and v.get('init') is not None]
+        for x in walk_all_exprs(f['body']):
+            if x.get('k') == 'call' and x.get('obj') is not None and strip_casts(x['obj']).get('d') == m.get('d'):
+                short = (x.get('callee') or '').split('::')[-1]
+                if short in ('operator+=', 'append', 'push_back', 'insert'):
+                    pieces += list(x.get('args', []))
+                elif short in ('clear', 'erase', 'resize', 'pop_back', 'operator=', 'assign', 'swap'):
+                    shrinks = True
+            if x.get('k') == 'assign' and strip_casts(x['l']).get('d') == m.get('d'):
+                shrinks = True
+        if not shrinks and any(len(s_.strip()) > 0 for p_ in pieces for s_ in [y['v'] for y in walk_expr(p_) if y.get('k') == 'str']):
+            return True
     return False
 
 
